@@ -281,6 +281,15 @@ def nth_back_rule(ctx, prog, name, tgt, cfg):
             ok = a[0] == ("param", 1) and Z.lt(idx, size)
             why = "get(self, size - index - 1) under index < size" if ok else "`size - index - 1` without the fact index < size (underflows)"
         else:
-            ok, why = False, "argument `%s` is not size - index - 1" % txt
+            # any other spelling: the argument is size - index - 1 as a linear form (the payload of a.checked_sub(b) is a - b),
+            # and the facts at the call place the index inside the sequence (so nothing in it underflowed unchecked)
+            from .. import lenrule as _lr
+
+            want = {size: 1, idx: -1, 1: -1}
+            Z = guards.Guards(f).closure(b, extra_terms=[idx, size])
+            if _lr.lin_key(_lr.lin(k)) == _lr.lin_key(want) and a[0] == ("param", 1) and Z.lt(idx, size):
+                ok, why = True, "get(self, <size - index - 1>) under index < size"
+            else:
+                ok, why = False, "argument `%s` is not size - index - 1" % txt
     ctx.check(ok, "DERIV1", name, "forwards to %s(self, size - index - 1) without underflow" % tgt, f.loc,
               "`%s` does not forward to `%s` with `size - index - 1` computed without underflow: %s" % (name, tgt, why), why, cfg)
